@@ -144,6 +144,17 @@ def run(facts, rep, tier):
                 rep.add(Finding("R10.4", "first match wins: 5,0 over 6,0 / meteo", "context '%s' (an MB field valid as 5,0 and as 6,0): stored %s; "
                                 "expected all 5,0 fields and nothing of 6,0 / 4,4 / 4,5" % (r.ctx["label"], sorted(st & (F50 | F60 | FMET | F40))), None))
     rep.instances("R10.4", n, floor=2)
+    # ---- R10.5 (converse clause at the sign/magnitude edge): sign bit set, magnitude zero is still a non-zero value field
+    for r in sel(B, "edge"):
+        reg = "bds50" if "bds50" in r.ctx["tags"] else "bds60"
+        need = (F50 if reg == "bds50" else F60) - {"bds_5_0_timestamp", "track_timestamp", "heading_timestamp", "track_source", "heading_source", "vrate_source"}
+        st = set(stored_fields(r))
+        ok = need <= st
+        rep.oblige(ok, ("edge", r.ctx["label"]))
+        if not ok:
+            rep.add(Finding("R10.5", "%s not recognised when a signed field is exactly -2^n (sign set, magnitude zero)" % reg,
+                            "context '%s': a valid, advertised %s register whose %s is not decoded (missing %s): a value field with only "
+                            "its sign bit set is non-zero" % (r.ctx["label"], reg, r.ctx["tags"][-1], sorted(need - st)), None))
     # ---- R10.5 / R10.6 on the forced-valid contexts
     n5 = n6 = 0
 
